@@ -424,6 +424,8 @@ pub struct SpyEvent {
     pub emitted: Option<u8>,
     /// memo-index calls: the index handed in and the one returned (if any)
     pub memo_io: Option<(usize, Option<usize>)>,
+    /// post_process calls: the emission as the snapshot describes it, and what stands in its place afterwards
+    pub post_io: Option<(Vec<u8>, Vec<u8>)>,
 }
 
 pub type SpyLog = Arc<Mutex<Vec<SpyEvent>>>;
@@ -437,7 +439,7 @@ pub struct Spy {
 
 impl Spy {
     fn rec(&self, kind: ValKind, empty_in: bool, fired: bool, changed: bool, emitted: Option<u8>) {
-        self.log.lock().unwrap().push(SpyEvent { idx: self.idx, kind, empty_in, fired, changed, emitted, memo_io: None });
+        self.log.lock().unwrap().push(SpyEvent { idx: self.idx, kind, empty_in, fired, changed, emitted, memo_io: None, post_io: None });
     }
 }
 
@@ -474,7 +476,7 @@ impl Mutator for Spy {
     }
     fn mutate_memo_index(&self, v: usize, s: &mut GenerationSource, r: f64) -> Option<usize> {
         let o = self.inner.mutate_memo_index(v, s, r);
-        self.log.lock().unwrap().push(SpyEvent { idx: self.idx, kind: ValKind::Memo, empty_in: false, fired: o.is_some(), changed: false, emitted: None, memo_io: Some((v, o)) });
+        self.log.lock().unwrap().push(SpyEvent { idx: self.idx, kind: ValKind::Memo, empty_in: false, fired: o.is_some(), changed: false, emitted: None, memo_io: Some((v, o)), post_io: None });
         o
     }
     fn is_unsafe(&self) -> bool {
@@ -484,7 +486,17 @@ impl Mutator for Spy {
         let before = out.clone();
         let o = self.inner.post_process(snap, out, s, r);
         let changed = before != *out;
-        self.rec(ValKind::Post, snap.output_delta.is_empty(), o, changed, snap.output_delta.first().copied());
+        let tail = out.get(snap.output_len..).map(|t| t.to_vec()).unwrap_or_default();
+        self.log.lock().unwrap().push(SpyEvent {
+            idx: self.idx,
+            kind: ValKind::Post,
+            empty_in: snap.output_delta.is_empty(),
+            fired: o,
+            changed,
+            emitted: snap.output_delta.first().copied(),
+            memo_io: None,
+            post_io: Some((snap.output_delta.clone(), tail)),
+        });
         o
     }
 }
